@@ -107,14 +107,14 @@ def replay(prop, ops, canaries=False):
     return result_of(world, ops, viol, None, None, time.perf_counter() - t0)
 
 
-def simulate_strat(prop, family, index):
+def simulate_strat(prop, family, index, master=0):
     """One stratified run: the index is decoded into a cell of the family's
     product space (dst/strat.py) and the resulting op list is executed."""
     from . import strat
-    ops, label = strat.plan(family, index)
+    ops, label = strat.plan(family, index, master)
     r = replay(prop, ops, canaries=True)
     r["seed"] = int(index)
-    r["swarm"] = {"family": family, "index": int(index), "label": label}
+    r["swarm"] = {"family": family, "index": int(index), "label": label, "master": int(master)}
     return r
 
 
